@@ -26,12 +26,18 @@ pub struct ConnPeer {
 }
 
 pub async fn connected_pair(listener: &TcpListener, header_mode: bool) -> Option<ConnPeer> {
-    let flags = if header_mode { PEER_FLAGS | HDR_FLAG } else { PEER_FLAGS };
+    connected_pair_flags(listener, header_mode, header_mode).await
+}
+
+/// each side offers the distribution-header capability or not; the negotiated mode is header mode only if both do
+pub async fn connected_pair_flags(listener: &TcpListener, ours_hdr: bool, peer_hdr: bool) -> Option<ConnPeer> {
+    let flags = if ours_hdr { PEER_FLAGS | HDR_FLAG } else { PEER_FLAGS };
+    let peer_flags = if peer_hdr { PEER_FLAGS | HDR_FLAG } else { PEER_FLAGS };
     let cfg = ConnectionConfig::new(LOCAL, PEER, COOKIE).with_flags(DistributionFlags::new(flags)).with_epmd_host("127.0.0.1").with_timeout(Duration::from_millis(1500));
     let mut conn = Connection::new(cfg);
     let acc = async {
         let (s, _) = listener.accept().await.ok()?;
-        accept_handshake(s, PEER, flags).await
+        accept_handshake(s, PEER, peer_flags).await
     };
     let (pc, r) = tokio::join!(acc, conn.connect());
     r.ok()?;
@@ -173,6 +179,24 @@ pub fn run_send(args: &[String]) -> i32 {
                     _ => 0,
                 };
                 w.put(&json!({"id": op["id"], "mode": format!("refused:{how}"), "connect_ok": connected, "result_ok": r.is_ok(), "stray_bytes_on_the_wire": stray, "frames": []}));
+            }
+        }
+        // the capability offered by one side only: the negotiated mode is pass-through
+        for (ours, theirs) in [(true, false), (false, true)] {
+            let Some(mut cp) = connected_pair_flags(&listener, ours, theirs).await else {
+                w.put(&json!({"tool_error": "could not connect (one-sided offer)"}));
+                return;
+            };
+            for op in ops.iter().filter(|o| o["inflate"].is_null()).step_by(9) {
+                let r = issue(&mut cp.conn, op).await;
+                let mut frames: Vec<Value> = Vec::new();
+                loop {
+                    match tokio::time::timeout(Duration::from_millis(if frames.is_empty() && r.is_ok() { 500 } else { 8 }), read_dist_frame(&mut cp.peer.rd)).await {
+                        Ok(Some(f)) => frames.push(frame_json(&f)),
+                        _ => break,
+                    }
+                }
+                w.put(&json!({"id": op["id"], "mode": "pass_through", "offer": if ours { "ours_only" } else { "peer_only" }, "result_ok": r.is_ok(), "err": r.err(), "frames": frames}));
             }
         }
         for header_mode in [false, true] {
